@@ -50,7 +50,7 @@ def main():
                 rel = os.path.relpath(os.path.join(root, f), demo_dir)
                 # files given flat are assumed to be integration tests of the cadence crate
                 if os.sep not in rel:
-                    target_crate = "cadence-macros" if ("macro" in f or "global" in f) and os.path.exists(os.path.join(wt, "cadence-macros")) and "cadence_macros" in open(os.path.join(root, f)).read() else "cadence"
+                    target_crate = "cadence-macros" if "cadence_macros" in open(os.path.join(root, f)).read() else "cadence"
                     dst = os.path.join(wt, target_crate, "tests", f)
                 else:
                     dst = os.path.join(wt, rel)
